@@ -56,6 +56,11 @@ def gen_lines(ctx):
     # (values above 255 are not put on the wire: RFC 7967 defines the option as a uint of length 0-1, the parser drops a
     #  longer one as it does every option with a registry-illegal length - C02's subject -, so such a request carries no
     #  No-Response option at all; values of up to four bytes are exercised at the response-writer level by `rw`/`rwl`)
+    # the second time: the peer retransmits its confirmable request (the acknowledgement was lost); the copy must be answered
+    # exactly as the first transmission was - the bare acknowledgement of a suppressed response included (seeded C20-U)
+    for c in ([69, 132, 160, 65, 128, 165, 95] if not thorough else EDGE_CODES):
+        for v in ("-", "0", "2", "8", "16", "26", "10", "31"):
+            L.append("srvd udp con %s %d" % (v, c))
     for c in codes:
         for v in vals:
             L.append("srv udp con %s %d" % (v, c))
@@ -120,6 +125,8 @@ def dl(l):
         return "srv udp %s %s %s" % (f[2], f[3], f[4])
     if f[0] == "srvm":
         return "srv %s %s %s %s" % (f[1], f[2], f[3], f[4])
+    if f[0] == "srvd":
+        return "srv " + " ".join(f[1:])
     if f[0] in ("srvmux", "srvbw", "srvh"):
         return "srv %s %s %s %s" % (f[1], f[2], f[3], f[4])
     if f[0] == "srvmw":
@@ -132,6 +139,11 @@ def explore(ctx, art):
     impl = common.run_test_harness(ctx, art["test"], "TestC20", lines)
     if impl is None or len(impl) != len(lines):
         return
+    # `srvd`: the first answer is judged like any `srv` line; the answer to the copy is compared with it by the harness
+    dupverdict = {}
+    for i, (l, o) in enumerate(zip(lines, impl)):
+        if l.startswith("srvd ") and " dup " in o:
+            impl[i], dupverdict[i] = o.split(" dup ", 1)
     model = judge = None
     if art.get("driver"):
         dls = [dl(l) for l in lines]
@@ -147,6 +159,9 @@ def explore(ctx, art):
         if o.startswith("panic") or o == "bad-op":
             ctx.violations.append(common.Violation("no-crash", "C20:" + l, "%s -> %s" % (l, o), {"input": [l], "observed": o}))
             continue
+        if i in dupverdict and dupverdict[i] != "same":
+            ctx.violations.append(common.Violation("wire-outcome", "C20:" + l, "%s: the first transmission was answered `%s`, its retransmission `%s`" % (l, o, dupverdict[i]),
+                                                   {"input": [l], "observed": o + " dup " + dupverdict[i]}))
         if model is not None and model[i] != "n/a" and model[i] != o:
             ctx.broken.append(("correspondence", "C20 model vs implementation", "%s: impl `%s` model `%s`" % (l, o, model[i])))
         if judge is not None:
